@@ -399,6 +399,16 @@ func c13Draw(r *simrt.Rng, vg *gen.G, s *treeState, faults bool) (Op, bool) {
 		}
 		u.tv = bad
 		op.A["bad"] = "1"
+		if strings.HasPrefix(string(bad.GetJsonIetfVal()), `{"x":`) {
+			op.A["badkind"] = "malformed"
+		} else {
+			op.A["badkind"] = "unknown-member"
+		}
+	}
+	// options of the call: IgnoreExtraFields changes nothing for a request without unknown
+	// members (and cannot rescue a malformed payload); it must also not outlive the call
+	if op.A["badkind"] != "unknown-member" && r.Intn(4) == 0 {
+		op.A["opt"] = "ignore-extra"
 	}
 	// common prefix
 	var all []string
@@ -645,7 +655,12 @@ func c13Apply(s *treeState, schema *ytypes.Schema, op Op) *Violation {
 			panic("C13: bad recorded request: " + uerr.Error())
 		}
 		desc = fmt.Sprintf("SetRequest{prefix=%s deletes=%d replaces=%d updates=%d}", model.FromGNMI(nil, req.Prefix), len(req.Delete), len(req.Replace), len(req.Update))
-		if p := callSUT(func() { err = ytypes.UnmarshalSetRequest(schema, req) }); p != nil {
+		var sopts []ytypes.UnmarshalOpt
+		if op.arg("opt") == "ignore-extra" {
+			sopts = append(sopts, &ytypes.IgnoreExtraFields{})
+			s.st.Probes["request_with_ignore_extra_fields"]++
+		}
+		if p := callSUT(func() { err = ytypes.UnmarshalSetRequest(schema, req, sopts...) }); p != nil {
 			return violation("C13", "panic", "C13:panic:setreq", "%s panicked: %v\n%s", desc, p.v, trimStack(p.stack))
 		}
 	case "atomic":
